@@ -269,6 +269,12 @@ def run(shard, ctx):
             ctx.count("class:more-than-2000-records")
             check_file(ctx, data, 250000, scratch, roundtrip=True)
             continue
+        if i == 3 and shard["index"] % 16 == 2:
+            # tens of thousands of records: the cache's .fai passes 1 MiB and must still be read back whole
+            data = b"".join(b">s%05d\n" % k + (b"AC" if k % 3 else b"ANNG") + b"\n" for k in range(60000 + rng.randint(0, 999)))
+            ctx.count("class:fai-larger-than-1MiB")
+            check_file(ctx, data, 250000, scratch, roundtrip=True)
+            continue
         data, meta = gfa.gen_fasta(rng)
         check_file(ctx, data, buffers(rng, meta), scratch, roundtrip=(i % 3 == 0), other=gfa.gen_fasta(rng)[0] if i % 6 == 0 else None)
 
@@ -295,6 +301,7 @@ def gates(c, tier):
         "cache-roundtrip": 300,
         "class:sequence-line-longer-than-1MiB": 2,
         "class:more-than-2000-records": 2,
+        "class:fai-larger-than-1MiB": 1,
         "cache-replaced-file-equal-mtime": 200,
     }
     out = [f"{k}>={v} (got {c.get(k, 0)})" for k, v in need.items() if c.get(k, 0) < v]
